@@ -89,6 +89,24 @@ def body(ctx, n, positive, with_bounds, dimcoord, data_pos, pd, d2s, depth_mode,
         geo_ds = builders.cf1d(1, 2)
         ds = ds.assign_coords({n: geo_ds[n].variable for n in ('lat', 'lon')})
         ds.attrs.update(geo_ds.attrs)
+    if via in ('convention-shoc-simple', 'convention-shoc-simple-datavar'):
+        # a SHOC simple dataset: the convention knows its depth coordinates by name (zc), whether or not xarray holds
+        # them as coordinates (decode_coords=False, reset_coords)
+        from symx import builders
+        geo_ds = builders.shoc_simple(1, 2)
+        ds = ds.assign_coords({n: geo_ds[n].variable for n in ('latitude', 'longitude')} if 'latitude' in geo_ds.variables else
+                              {n: geo_ds[n].variable for n in geo_ds.variables if geo_ds[n].ndim == 2})
+        ds.attrs.update(geo_ds.attrs)
+        if via.endswith('datavar'):
+            ds = ds.reset_coords('zc')
+    if via == 'convention-marker':
+        # found by the convention through one documented marker only (here: cartesian_axis), the sign convention is guessed
+        from symx import builders
+        geo_ds = builders.cf1d(1, 2)
+        ds = ds.assign_coords({n: geo_ds[n].variable for n in ('lat', 'lon')})
+        ds.attrs.update(geo_ds.attrs)
+        ds['zc'].attrs.pop('long_name', None)
+        ds['zc'].attrs['cartesian_axis'] = 'Z'
     if bounds_coords and with_bounds:
         ds = ds.set_coords('zc_bnds')      # the bounds variable held as an xarray coordinate
     if dangling:
@@ -112,7 +130,12 @@ def body(ctx, n, positive, with_bounds, dimcoord, data_pos, pd, d2s, depth_mode,
     def normalise(dataset):
         with warnings.catch_warnings(record=True) as w:
             warnings.simplefilter('always')
-            if via == 'convention':
+            if via in ('convention-shoc-simple', 'convention-shoc-simple-datavar'):
+                from emsarray.conventions.shoc import ShocSimple
+                cv = ShocSimple(dataset)
+                ctx.check({str(c.name) for c in cv.depth_coordinates} == set(names), 'every depth coordinate of the dataset is found')
+                out = cv.normalize_depth_variables(positive_down=pd_arg, deep_to_shallow=d2s_arg)
+            elif via in ('convention', 'convention-marker'):
                 from emsarray.conventions.grid import CFGrid1D
                 cv = CFGrid1D(dataset)
                 ctx.check({str(c.name) for c in cv.depth_coordinates} == set(names), 'every depth coordinate of the dataset is found')
@@ -276,6 +299,14 @@ def cases(tier):
                        dict(n=2 if second else 3, positive=positive, with_bounds=not second, dimcoord=False, data_pos=1,
                             pd=pd, d2s=d2s, depth_mode='symbolic', via='convention', second=second),
                        patches=depthcommon.patches, max_paths=200)
+    # through the alias of a SHOC simple convention (coordinates known by name; held as coordinate or as plain variable),
+    # and of a CF convention that has one marker only to go by
+    for via in ('convention-shoc-simple', 'convention-shoc-simple-datavar', 'convention-marker'):
+        for positive in ('up', 'down'):
+            for (pd, d2s) in ((True, True), (False, None), (None, False), (True, False)):
+                yield Case(f'alias:{via}:{positive}:pd{pd}:d2s{d2s}', body,
+                           dict(n=3, positive=positive, with_bounds=True, dimcoord=False, data_pos=1, pd=pd, d2s=d2s, depth_mode='symbolic', via=via),
+                           patches=depthcommon.patches, max_paths=200)
     # integer-typed depth coordinates with fractional float bounds
     for dt, vals, positive in (('int32', (5, 10, 25), 'down'), ('int16', (-40, -15, -4), 'up'), ('int64', (30, 7), 'DOWN')):
         for (pd, d2s) in opts:
